@@ -280,6 +280,11 @@ def judge_single(env, a, xs, part, out):
         "np.ptp": (lambda: np.ptp(arr()), [max(fx) - min(fx)]),
         "ndarray.ptp-like max-min": (lambda: arr().max() - arr().min(), [max(fx) - min(fx)]),
     }
+    if len(fx) >= 2:
+        # central differences inside, one-sided at the ends: differences of readings divided by plain numbers
+        g = [fx[1] - fx[0]] + [(fx[i + 1] - fx[i - 1]) / 2 for i in range(1, len(fx) - 1)] + [fx[-1] - fx[-2]]
+        deltas["np.gradient"] = (lambda: np.gradient(arr()), g)
+        deltas["np.gradient(x, 2.0)"] = (lambda: np.gradient(arr(), 2.0), [v / 2 for v in g])
     for nm, (fn, dx) in deltas.items():
         part.ev()
         st_, r = _call(fn)
